@@ -40,6 +40,10 @@ SHAPES = {
     "parameter": (["(define (loop f n acc) (tick n) (if (= n 0) acc CTX))"], "(f f (- n 1) (+ acc 1))", "(loop loop %d 0)"),
     "variadic": (["(define (loop n . accs) (tick n) (if (= n 0) (car accs) CTX))"], "(loop (- n 1) (+ (car accs) 1))", "(loop %d 0)"),
     "apply": (["(define (loop n acc) (tick n) (if (= n 0) acc CTX))"], "(apply loop (list (- n 1) (+ acc 1)))", "(loop %d 0)"),
+    "apply-leading": (["(define (loop n acc) (tick n) (if (= n 0) acc CTX))"], "(apply loop (- n 1) (list (+ acc 1)))", "(loop %d 0)"),
+    "apply-forward-rest": (["(define (loop n . accs) (tick n) (if (= n 0) (car accs) CTX))"],
+                           "(apply loop (- n 1) (+ (car accs) 1) (cdr accs))", "(loop %d 0)"),
+    "apply-empty-tail": (["(define (loop n acc) (tick n) (if (= n 0) acc CTX))"], "(apply loop (- n 1) (+ acc 1) '())", "(loop %d 0)"),
 }
 
 
@@ -141,8 +145,8 @@ def main(tier, seed):
     rep = C.Report(PROP, tier, seed)
     rng = random.Random(seed)
     rep.cov["rule"] = ("loops whose tail call sits in a composition of the 16 tail contexts (all single contexts, pairs sampled "
-                       "in quick / all pairs and sampled triples in thorough) x 5 loop shapes (self, mutual, through a procedure "
-                       "parameter, variadic, apply) x 2 iteration counts; distinct = (shape, contexts, count)")
+                       "in quick / all pairs and sampled triples in thorough) x 8 loop shapes (self, mutual, through a procedure "
+                       "parameter, variadic, apply in its 2-argument, leading-argument, rest-forwarding and empty-tail forms) x 2 iteration counts; distinct = (shape, contexts, count)")
     rep.assumptions = ["real stack depth is the address of a local of the host procedure tick; live heap is a counting global allocator; "
                        "that activation depth bounds machine stack is measured here, not proved"]
     ok = C.standard_proof_phase(rep, MODULES, directed_search=lambda r: run(r, tier, rng))
